@@ -6,28 +6,72 @@ was created by this very step (fresh id, batch counter 0). Consequence: the tota
 namespace SM
 open Map
 
-theorem createCtx_new (s : State) (id : CtxId) (mod : ModName) (svc : SvcName) (provs : List Addr) (cons : Addr)
-    (cap : Option Nat) (timeout : Int) (super rep : Bool) (freq : Nat) (total : Int) (inputOk running : Bool) (thr : Nat) :
-    ∀ y, Map.get (createCtx s id mod svc provs cons cap timeout super rep freq total inputOk running thr).1.ctxs id = some y →
-      Map.get s.ctxs id = some y ∨ y.batch = 0 := by
-  intro y hy
-  unfold createCtx at hy; dsimp only at hy
-  repeat' split at hy
+/-- what `ValidateRequest` guarantees about the fields that make a stored context valid -/
+theorem validateRequest_fields {svc : SvcName} {cap : Option Nat} {provs : List Addr} {timeout : Int} {rep : Bool}
+    {freq : Nat} {total : Int} (h : validateRequest svc cap provs timeout rep freq total = none) :
+    validName svc = true ∧ provs.isEmpty = false ∧ provs.length ≤ 10 ∧ provs.Nodup := by
+  unfold validateRequest at h
+  repeat' (split at h)
   all_goals first
-    | (left; exact hy)
-    | (right; simp only [setCtx, addNewQ] at hy; rw [Map.get_set_same] at hy; injection hy with hy; subst hy; rfl)
+    | (simp at h; done)
+    | (rename_i h1 _ h3 h4 _ _ _
+       refine ⟨by simpa using h1, ?_, ?_, ?_⟩
+       · cases hp : provs.isEmpty with
+         | false => rfl
+         | true => exact absurd (Or.inl hp) h3
+       · by_cases hl : provs.length > 10
+         · exact absurd (Or.inr hl) h3
+         · omega
+       · by_cases hn : provs.Nodup
+         · exact hn
+         · exact absurd hn h4)
+
+theorem createCtx_new (s : State) (id : CtxId) (mod : ModName) (svc : SvcName) (provs : List Addr) (cons : Addr)
+    (cap : Option Nat) (timeout : Int) (super rep : Bool) (freq : Nat) (total : Int) (inputOk running : Bool) (thr : Nat)
+    (hv : mod = "" → validateRequest svc cap provs timeout rep freq total = none) (hcons : cons ≠ "") :
+    ∀ y, Map.get (createCtx s id mod svc provs cons cap timeout super rep freq total inputOk running thr).1.ctxs id = some y →
+      Map.get s.ctxs id = some y ∨ (y.batch = 0 ∧ ctxFieldsOK y = true) := by
+  intro y hy
+  unfold createCtx at hy
+  cases hp : createPre s mod svc provs cap timeout rep freq total thr with
+  | some e => rw [hp] at hy; left; exact hy
+  | none =>
+    rw [hp] at hy; dsimp only at hy
+    have hvr : validateRequest svc cap provs timeout rep freq total = none := by
+      by_cases hm : mod = ""
+      · exact hv hm
+      · exact createPre_none hp hm
+    obtain ⟨v1, v2, v3, v4⟩ := validateRequest_fields hvr
+    split at hy; · left; exact hy
+    split at hy; · left; exact hy
+    cases cap with
+    | none => left; exact hy
+    | some capv =>
+      dsimp only at hy
+      split at hy; · left; exact hy
+      rename_i hcap
+      split at hy; · left; exact hy
+      right
+      have hrec : y = newCtxRec mod svc provs cons capv timeout super rep freq total running thr := by
+        cases running <;> (simp only [setCtx, addNewQ, Bool.false_eq_true, if_false, if_true] at hy
+                           rw [Map.get_set_same] at hy; injection hy with hy; exact hy.symm)
+      subst hrec
+      refine ⟨rfl, ?_⟩
+      unfold ctxFieldsOK newCtxRec
+      simp only [Bool.and_eq_true, Bool.not_eq_true', decide_eq_true_eq, ne_eq]
+      exact ⟨⟨⟨⟨⟨v1, v2⟩, v3⟩, v4⟩, hcons⟩, by omega⟩
 
 /-- Over any well-formed step, every context present afterwards either was created by this very step (its id was
     never used before) or evolved from the context with the same id: its service, consumer, super-mode flag, repeat
     flag and owning module are unchanged, its batch counter did not decrease, and `completed` is final. -/
 theorem step_ctx_origin {s : State} (h : Inv s) (op : Op) (hw : WF s op)
     (c : CtxId) (y : Ctx) (hy : Map.get (step s op).1.ctxs c = some y) :
-    (∃ x, Map.get s.ctxs c = some x ∧ CtxEvol x y) ∨ (c ∉ s.usedIds ∧ y.batch = 0) := by
-  rcases step_state s op with h1 | ⟨h1, h2, _⟩
+    (∃ x, Map.get s.ctxs c = some x ∧ CtxEvol x y) ∨ (c ∉ s.usedIds ∧ y.batch = 0 ∧ ctxFieldsOK y = true) := by
+  rcases step_state s op with h1 | ⟨h1, h2, hvb⟩
   · rw [h1] at hy; left; exact ⟨y, hy, CtxEvol.refl y⟩
   · rw [h1] at hy
     have key : CtxsEvol s (exec s op).1 ∨ (∃ id, id ∉ s.usedIds ∧ (∀ c2, c2 ≠ id → Map.get (exec s op).1.ctxs c2 = Map.get s.ctxs c2) ∧
-          (∀ y, Map.get (exec s op).1.ctxs id = some y → Map.get s.ctxs id = some y ∨ y.batch = 0)) := by
+          (∀ y, Map.get (exec s op).1.ctxs id = some y → Map.get s.ctxs id = some y ∨ (y.batch = 0 ∧ ctxFieldsOK y = true))) := by
       cases op with
       | fund a n => left; exact ctxsEvol_of_eq rfl
       | xfer a b n =>
@@ -61,23 +105,36 @@ theorem step_ctx_origin {s : State} (h : Inv s) (op : Op) (hw : WF s op)
         · show ∀ y, Map.get (if s.cfg.modsvc = some svc then panicOut s "module-service call: outside the model"
             else createCtx s id "" svc provs cons cap timeout super rep freq total inputOk true 0).1.ctxs id = some y → _
           rw [if_neg hms]
-          exact createCtx_new s id "" svc provs cons cap timeout super rep freq total inputOk true 0
+          have hvb' : callVB svc provs cons cap timeout rep freq total = true := hvb
+          unfold callVB at hvb'
+          simp only [Bool.and_eq_true, decide_eq_true_eq, ne_eq] at hvb'
+          refine createCtx_new s id "" svc provs cons cap timeout super rep freq total inputOk true 0 (fun _ => ?_) (by simpa using hvb'.1)
+          cases hvq : validateRequest svc cap provs timeout rep freq total with
+          | none => rfl
+          | some e => have := hvb'.2; rw [hvq] at this; simp at this
       | modcreate id mod svc provs cons cap timeout super rep freq total inputOk running thr =>
         right
         obtain ⟨_, hfresh, hmodne, hconsne⟩ : ¬ s.modAcct cons ∧ id ∉ s.usedIds ∧ mod ≠ "" ∧ cons ≠ "" := hw
         exact ⟨id, hfresh, createCtx_ctxs s id mod svc provs cons cap timeout super rep freq total inputOk running thr,
-          createCtx_new s id mod svc provs cons cap timeout super rep freq total inputOk running thr⟩
+          createCtx_new s id mod svc provs cons cap timeout super rep freq total inputOk running thr
+            (fun e => absurd e hmodne) hconsne⟩
       | respond r pv code out => left; exact respond_evol s r pv code out
       | pause c2 cons => left; show CtxsEvol s (ctxMsg s c2 cons _).1; unfold ctxMsg; split; exact CtxsEvol.refl s; exact pauseK_evol s c2 cons
       | start c2 cons => left; show CtxsEvol s (ctxMsg s c2 cons _).1; unfold ctxMsg; split; exact CtxsEvol.refl s; exact startK_evol s c2 cons
       | kill c2 cons => left; show CtxsEvol s (ctxMsg s c2 cons _).1; unfold ctxMsg; split; exact CtxsEvol.refl s; exact killK_evol s c2 cons
       | updatectx c2 cons provs cap timeout freq total =>
         left; show CtxsEvol s (ctxMsg s c2 cons _).1; unfold ctxMsg; split; exact CtxsEvol.refl s
-        exact updateK_evol s c2 cons provs 0 cap timeout freq total
+        have hvb' : updatectxVB cons provs cap timeout freq total = true := hvb
+        unfold updatectxVB at hvb'
+        simp only [Bool.and_eq_true] at hvb'
+        refine updateK_evol s c2 cons provs 0 cap timeout freq total ?_
+        cases hvq : validateCtxUpdate provs cap timeout freq total with
+        | none => rfl
+        | some e => have := hvb'.2; rw [hvq] at this; simp at this
       | modpause c2 cons => left; exact pauseK_evol s c2 cons
       | modstart c2 cons => left; exact startK_evol s c2 cons
       | modkill c2 cons => left; exact killK_evol s c2 cons
-      | modupdate c2 cons provs thr cap timeout freq total => left; exact updateK_evol s c2 cons provs thr cap timeout freq total
+      | modupdate c2 cons provs thr cap timeout freq total => left; exact updateK_evol s c2 cons provs thr cap timeout freq total hw
       | withdraw o pv =>
         left
         apply ctxsEvol_of_eq
@@ -113,7 +170,7 @@ theorem step_ctx_origin {s : State} (h : Inv s) (op : Op) (hw : WF s op)
       · subst hcid
         rcases hnew y hy with hold | hb
         · left; exact ⟨y, hold, CtxEvol.refl y⟩
-        · right; exact ⟨hfresh, hb⟩
+        · right; exact ⟨hfresh, hb.1, hb.2⟩
       · left; rw [hsame c hcid] at hy; exact ⟨y, hy, CtxEvol.refl y⟩
 
 
@@ -124,8 +181,19 @@ theorem totBounded {cfg : Config} {p : Params} {h0 t0 : Int} (hc : CfgOK cfg p) 
   | init => intro c x hx; simp [genesis, Map.get] at hx
   | @step s op hr' hw ih =>
     intro c y hy
-    rcases step_ctx_origin (reachable_inv hc hr') op hw c y hy with ⟨x, hx, he⟩ | ⟨_, hb⟩
+    rcases step_ctx_origin (reachable_inv hc hr') op hw c y hy with ⟨x, hx, he⟩ | ⟨_, hb, _⟩
     · exact he.bnd (ih c x hx)
     · intro _ hpos; rw [hb]; exact Int.le_of_lt hpos
+
+/-- C19: in every reachable state every stored context is valid on its own (`RequestContext.Validate`) -/
+theorem ctxsFieldsOK {cfg : Config} {p : Params} {h0 t0 : Int} (hc : CfgOK cfg p) {s : State}
+    (hr : Reachable cfg p h0 t0 s) : ∀ c x, Map.get s.ctxs c = some x → ctxFieldsOK x = true := by
+  induction hr with
+  | init => intro c x hx; simp [genesis, Map.get] at hx
+  | @step s op hr' hw ih =>
+    intro c y hy
+    rcases step_ctx_origin (reachable_inv hc hr') op hw c y hy with ⟨x, hx, he⟩ | ⟨_, _, hf⟩
+    · exact he.fields (ih c x hx)
+    · exact hf
 
 end SM
